@@ -121,6 +121,14 @@ or not they recur alone (unexplained deaths end the check with exit 2, never
 with a VIOLATION). The regression was then repeated with the final harness;
 `seeded/RESULTS.txt` is that second result.
 
+After waves 9 and 10 the full regression was not repeated (an hour of machine
+time that was not left); instead the 15 changes with the lowest detection
+counts in `seeded/RESULTS.txt` - the ones a changed generator would lose
+first - were re-tried with the final harness: all 15 are still reported
+(`seeded/RESULTS_fragile_after_w10.txt`). The first trials and the re-trials
+of waves 9 and 10 are in `seeded/RESULTS_w9_w10.txt`. `RESULTS.txt` itself is
+the regression with the wave-8 harness.
+
 Counter-test (no alarm on code where the properties hold): two further
 sub-agents were asked for behaviour-preserving maintenance changes (12 in
 all, `/verif/benign/`): ParseFile restructured (result hand-off over buffered
